@@ -146,7 +146,7 @@ def parse_value(tk, ty):
                 M.parse_type(tk); tk.expect(',')
                 ops = []
                 while True:
-                    t = M.parse_type(tk); tk.eat('inrange'); ops.append(parse_value(tk, t))
+                    tk.eat('inrange'); t = M.parse_type(tk); tk.eat('inrange'); ops.append(parse_value(tk, t))
                     if tk.eat(')'): break
                     tk.expect(',')
                 return Val('cgep', ty, ops=ops)
@@ -317,7 +317,8 @@ class Emit:
         if v.kind == 'int': return str(v.v)
         return '(%s)%s' % (v.ty.sc(), s.cval(v))
 
-def cfname(n): return 'F_' + mangle(n)
+CXX_ALLOC = {'_Znwm': 'malloc', '_Znam': 'malloc', '_ZdlPv': 'free', '_ZdaPv': 'free'}
+def cfname(n): return CXX_ALLOC.get(n) or ('F_' + mangle(n))
 def PROG(tid, seq): return ' VERIF_PROG = 1;' if seq else ''
 
 BINOPS = {'add': '+', 'sub': '-', 'mul': '*', 'and': '&', 'or': '|', 'xor': '^', 'shl': '<<', 'lshr': '>>', 'udiv': '/', 'urem': '%'}
@@ -601,6 +602,11 @@ def translate_function(f, tid=None, seq=False, opts=None):
                     out.append('  __CPROVER_assert(0, "VERIF real code reached %s()"); __CPROVER_assume(0);' % callee.v); continue
                 if callee.kind == 'global' and callee.v in ('__cxa_pure_virtual',):
                     out.append('  __CPROVER_assert(0, "VERIF pure virtual call"); __CPROVER_assume(0);'); continue
+                if callee.kind == 'global' and callee.v in TRAP:
+                    out.append('  __CPROVER_assert(0, "VERIF harness model: unexpected call to %s (path not modelled)"); __CPROVER_assume(0);%s' % (callee.v, ' return;' if seq else ''))
+                    if dst and not isinstance(rty, VoidT):
+                        e.reg(dst, rty)
+                    continue
                 if callee.kind == 'global' and callee.v in NOOP:
                     if dst and not isinstance(rty, VoidT):
                         e.reg(dst, rty); out.append('  %s = 0;' % e.reg(dst))
@@ -655,6 +661,7 @@ TSO_LOCS = {}
 SPECIAL = {}
 CALLED = set()
 NOOP = set()
+TRAP = set()
 
 # ---------------------------------------------------------------- constant initialisers
 def cinit(v, ty, em):
@@ -695,6 +702,7 @@ def main():
     opts = cfg.get('opts', {})
     SPECIAL.update(cfg.get('special', {}))
     NOOP.update(cfg.get('noop', ['empty_loop']))
+    TRAP.update(cfg.get('trap', []))
     threads = cfg.get('threads', [])
     N = len(threads)
     for fn in threads + cfg.get('plain', []):
@@ -707,7 +715,7 @@ def main():
     env_model = cfg.get('env_model')
     provided = set(RUNTIME_PROVIDED) | set(cfg.get('runtime_provides', []))
     if env_model:
-        provided.add('myth_get_current_env')
+        provided.add('myth_get_current_env'); provided.add('myth_get_current_env_noinline')
         if env_model not in plain_names: plain_names.append(env_model)
     while True:
         todo = [n for n in plain_names if n not in done]
@@ -719,7 +727,7 @@ def main():
         for n in todo:
             plain.append(translate_function(M.funcs[n])); done.add(n)
     missing = [c for c in sorted(CALLED) if c not in M.funcs and c not in provided and c not in havoc_ok
-               and not c.startswith('llvm.') and c not in SPECIAL and c not in ('memcpy', 'memset', 'memmove', 'malloc', 'free', 'calloc')]
+               and not c.startswith('llvm.') and c not in SPECIAL and c not in ('memcpy', 'memset', 'memmove', 'malloc', 'free', 'calloc') and c not in CXX_ALLOC]
     if missing:
         raise SystemExit('irseq: calls to functions without body or model: ' + ', '.join(missing))
     decls, need, define = ctype_decls()
@@ -747,7 +755,8 @@ def main():
         return '%s %s(%s)' % (f.ret.c(), cfname(name or f.name), ps or 'void')
     for n, d in M.decls.items():
         if n.startswith('llvm.') or n in ('__assert_fail', 'verif_park', 'verif_stop', 'verif_yield') or n in SPECIAL or n.startswith('nondet_'): continue
-        if n in ('memcpy', 'memset', 'memmove', 'malloc', 'free', 'calloc', 'abort', 'exit'): continue
+        if n in ('memcpy', 'memset', 'memmove', 'malloc', 'free', 'calloc', 'abort', 'exit') or n in CXX_ALLOC: continue
+        if n in TRAP: continue
         P(proto(d) + ';')
     for n, f in M.funcs.items():
         P(proto(f) + ';')
@@ -781,6 +790,7 @@ def main():
     if env_model:
         f = M.funcs[env_model]
         P('%s F_myth_get_current_env(void){ return %s((uint32_t)CUR_TID); }' % (f.ret.c(), cfname(env_model)))
+        P('%s F_myth_get_current_env_noinline(void){ return %s((uint32_t)CUR_TID); }   /* src/myth_worker.c: one-line wrapper of myth_get_current_env */' % (f.ret.c(), cfname(env_model)))
     if cfg.get('runtime'): P(open(cfg['runtime']).read())
     for em in plain:
         f = em.f
@@ -805,6 +815,8 @@ def main():
         P('  switch (TH[%d].pc) { case -2: break; %s default: return; }' % (em.tid, ' '.join('case %d: goto %s;' % (k, l) for k, l in em.resume)))
         P('\n'.join(em.out)); P('}')
     sys.stderr.write('irseq: %d threads, visible points per thread: %s\n' % (N, [em.nvis for em in ems]))
+    if not threads and 'verif_main' in M.funcs:
+        P('int main(void) { F_verif_main(); return 0; }')
     if threads:
         R = cfg.get('rounds', 3)
         order = cfg.get('order')  # optional explicit list of thread ids per round
